@@ -474,3 +474,35 @@ pub fn vf_write2<'a, T: std::fmt::Display, U: std::fmt::Display>(f: &mut std::fm
 pub fn vf_write3<'a, T: std::fmt::Display, U: std::fmt::Display, W: std::fmt::Display>(f: &mut std::fmt::Formatter<'a>, a: &T, b: &U, c: &W) -> (r: std::fmt::Result)
     ensures r is Ok ==> fmt_out(*final(f)) == fmt_out(*old(f)) + display_bytes(a) + display_bytes(b) + display_bytes(c),
 { std::write!(f, "{}{}{}", a, b, c) }
+
+// ---- R8: `RECV.iter().filter_map(CLOSURE).collect::<Result<Vec<_>, _>>()` is rewritten to this helper -------------
+/// what `filter_map(g).collect::<Result<Vec<_>, _>>()` computes for a pure `g`: the `Some(Ok(_))` payloads in order,
+/// or the first `Some(Err(_))` (later elements are not looked at)
+pub open spec fn fmc_spec<S, T, E>(s: Seq<S>, g: spec_fn(S) -> Option<Result<T, E>>) -> Result<Seq<T>, E>
+    decreases s.len()
+{
+    if s.len() == 0 { Ok(Seq::empty()) } else {
+        match g(s[0]) {
+            None => fmc_spec(s.skip(1), g),
+            Some(Err(e)) => Err(e),
+            Some(Ok(v)) => match fmc_spec(s.skip(1), g) { Ok(r) => Ok(seq![v] + r), Err(e) => Err(e) },
+        }
+    }
+}
+pub open spec fn res_vec_view<T, E>(r: Result<Vec<T>, E>) -> Result<Seq<T>, E> {
+    match r { Ok(v) => Ok(v@), Err(e) => Err(e) }
+}
+/// ASSUMED std contract (slice::iter + Iterator::filter_map + FromIterator for Result<Vec<_>, _>), parametric in the
+/// closure's verified ensures; the body is the very chain that the rewrite rule R8 replaces.
+#[verifier::external_body]
+pub fn vf_filter_map_collect<'a, S, T, E, F: FnMut(&'a S) -> Option<Result<T, E>>>(s: &'a [S], f: F) -> (r: Result<Vec<T>, E>)
+    requires
+        forall|x: &S| f.requires((x,)),
+    ensures
+        forall|g: spec_fn(S) -> Option<Result<T, E>>| (forall|x: &S, o: Option<Result<T, E>>| f.ensures((x,), o) ==> o == g(*x))
+            ==> res_vec_view(r) == #[trigger] fmc_spec(s@, g),
+{ s.iter().filter_map(f).collect::<Result<Vec<_>, _>>() }
+
+/// ASSUMED std contract: Result<Option<T>, E>::transpose
+pub assume_specification<T, E>[ Result::<Option<T>, E>::transpose ](r: Result<Option<T>, E>) -> (o: Option<Result<T, E>>)
+    ensures o == (match r { Ok(Some(x)) => Some(Ok(x)), Ok(None) => None, Err(e) => Some(Err(e)) });
